@@ -24,8 +24,8 @@ C_REC = Contract(requires=['1'], ensures=['1'], assigns='')
 
 def jobs(tier):
     out = []
-    N = 3 if tier == 'quick' else 4
-    d = {'U_BITS': 16, 'I_BITS': 16, 'XT_N': N}
+    N = 4
+    d = {'U_BITS': 8, 'I_BITS': 8, 'WIDE_BITS': 16, 'XT_N': N, 'XT_R': 3} if tier == 'quick' else {'U_BITS': 16, 'I_BITS': 16, 'XT_N': N}
     caps = {'vec_vec_I': N, 'vec_I': N, 'vec_vec_U': N, 'vec_U': N, 'vec_pair_U_U': 2 + 4 * N + 2 * N * N, 'map_pair_U_U_vec_idl_distancep': 1,
             'vec_idl_distancep': 1, 'map_pair_U_U_idl_distancep': 1, 'vec_lit': 2, 'vec_us': 2}
     c = Contract(
@@ -33,17 +33,21 @@ def jobs(tier):
                   '__exc == 0 && self->n_vars == XT_N && spa_shape(self->_dists, self->_preds)', 'spa_range(self->_dists)', 'spa_closed(self->_dists)',
                   '*from < XT_N && *to < XT_N && *from != *to && *dist >= -XT_R && *dist <= XT_R',
                   'self->_dists.e[*from].e[*to] > *dist', 'self->_dists.e[*to].e[*from] == XT_INF || self->_dists.e[*to].e[*from] + *dist >= 0',
-                  'self->dist_constrs.n == 0 && self->base_theory.cnfl.n == 0'],
+                  'self->dist_constrs.n == 0 && self->base_theory.cnfl.n == 0',
+                  'spa_E_shape(xt_E) && spa_edges_respected(self->_dists, xt_E) && spa_pred_ok(self->_dists, self->_preds, xt_E)',
+                  '(xt_E.e[*from].e[*to] == XT_INF || xt_E.e[*from].e[*to] > *dist)'],
         ensures=[('noexcept', '__exc == 0'),
                  ('distances_are_the_exact_closure', 'spa_is_closure_step(%s, self->_dists, *from, *to, *dist)' % OLD('self->_dists')),
                  ('still_closed', 'spa_closed(self->_dists)'),
+                 ('predecessors_are_last_hops_of_shortest_paths', 'spa_pred_ok(self->_dists, self->_preds, spa_E_with(xt_E, *from, *to, *dist))'),
+                 ('edges_respected', 'spa_edges_respected(self->_dists, spa_E_with(xt_E, *from, *to, *dist))'),
                  ('nothing_learnt_without_registered_constraints', 'self->base_theory.cnfl.n == 0')],
         assigns='__exc, self->_dists, self->_preds, self->base_theory.cnfl')
     out.append(Job('idl.propagate_edge', 'smt_idl_theory_propagate__U__U__I', tus=TUS, contract=c, defines=d, unwind=N + 2, model_unwind=max(2 + 4 * N + 2 * N * N, 12) + 1,
                    spec_headers=['dl_apsp_spec.h'], callee_contracts={SETD: C_SETD, SETP: C_SETP, REC: C_REC}, replace=[SETD, SETP, REC], exceptions=True,
-                   caps=caps, abstract_fields=ABS, timeout=3000, mem_gb=24, loop_unwind={6: 2 + 4 * N + 2 * N * N + 2},
+                   caps=caps, abstract_fields=ABS, timeout=3000, mem_gb=32, solver='cadical', loop_unwind={6: 2 + 4 * N + 2 * N * N + 2},
                    # the theory object is owned by the harness so that 'no registered constraints' is a concrete fact for symbolic execution
-                   harness='void xt_harness(void)\n{\n  xt_init_globals();\n  struct smt_idl_theory th; th.dist_constrs.n = 0; th.base_theory.cnfl.n = 0;\n  U_t *from; U_t *to; I_t *dist;\n  smt_idl_theory_propagate__U__U__I(&th, from, to, dist);\n}\n',
+                   harness='void xt_harness(void)\n{\n  xt_init_globals();\n  struct smt_idl_theory th; th.dist_constrs.n = 0; th.base_theory.cnfl.n = 0;\n  { struct vec_vec_I ge; xt_E = ge; }\n  U_t *from; U_t *to; I_t *dist;\n  smt_idl_theory_propagate__U__U__I(&th, from, to, dist);\n}\n',
                    force_types=['std::vector<std::vector<long>>', 'std::vector<std::vector<unsigned long>>'],
-                   bounded='%d time points; finite weights in [-8, 8] plus the inf() sentinel; no registered undecided constraints (the re-propagation loop is empty)' % N))
+                   bounded='%d time points; finite weights in [-3, 3] (quick) / [-8, 8] plus the inf() sentinel; no registered undecided constraints (the re-propagation loop is empty)' % N))
     return out
